@@ -85,6 +85,7 @@ CfgTrace   == AllConfigs(0..4, 0..3, BOOLEAN, BOOLEAN)
 CfgGenA    == AllConfigs(0..1, {0}, {FALSE}, {FALSE})                          \* broad, no sleeping
 CfgGenB    == {c \in AllConfigs({1}, {0, 1}, {FALSE}, BOOLEAN) : c.bidi /\ (c.sec = "dns" => c.sbidi)}
 CfgGenD    == {c \in AllConfigs({0, 1}, {0}, {TRUE}, {FALSE}) : c.bidi}        \* with connectionDelay
+CfgGenC    == AllConfigs({2}, {0, 1}, {FALSE}, {FALSE})                          \* three attempts, small alphabets
 CfgSim     == AllConfigs(0..3, 0..2, {FALSE}, BOOLEAN)
 
 Rg(i) == IF i = 1 THEN [kind |-> cfg.kind, bidi |-> cfg.bidi, max |-> cfg.max]
